@@ -412,6 +412,78 @@ def rule_D4(ctx):
     return r
 
 
+# --------------------------------------------------------------------------------------- D7
+# Conditional-chain membership.  A conditional (`?>` / `!>`) whose build node carries a `conditional_parent` does not patch its
+# own placeholder: it registers (branch node, placeholder index) with that parent and relies on the parent to schedule the
+# branch, which is where the placeholder gets patched.  Only the handler that walks `conditional_items` does that.  So a
+# node's conditional_parent may be *forwarded* to another node only by such a consumer (the else-chain); any other construct
+# (a group, an operator) that passes the marker on hands the conditional to a parent that never schedules its branch - the
+# zero placeholder survives the build.
+
+
+def _contexts(F):
+    """[(fn, label, node)] analysis contexts of the builder: every arm of the Definition dispatch separately, every other
+    builder function as a whole."""
+    out = []
+    ms = [x for x in dispatch_matches(F, DEFN, ["garnish_lang_compiler"], 0.8) if "::build::" in x[0]["path"]]
+    disp_fn = ms[0][0]["path"] if ms else None
+    if ms:
+        f, m, _n = ms[0]
+        for alts, _g, arm in arm_table(m):
+            names = sorted(set(last(a[1]) for a in alts if a[0] == "V" and a[1]))
+            out.append((f, "arm:" + "|".join(names), arm["body"]))
+    for f in builder_fns(F):
+        if f["path"] != disp_fn and not f.get("impl_trait"):  # derived Debug / PartialEq bodies read every field
+            out.append((f, "fn:" + (f.get("name") or "?"), f["hir"]))
+    return out
+
+
+def rule_D7(ctx):
+    F = ctx.F
+    r = RuleResult("D7", "conditional-chain membership: a node's conditional_parent is handed on to another node only by the handler that schedules conditional_items (the else-chain); nothing else forwards the marker")
+    n_ctor = n_fwd = 0
+    consumers = []
+    for f, label, node in _contexts(F):
+        body = Body(f)
+        # consumer: iterates the registered branches (reads conditional_items other than to push onto it)
+        consumer = False
+        for n in walk(node):
+            if n.get("k") == "Field" and n.get("name") == "conditional_items":
+                consumer_here = True
+                consumer = consumer or consumer_here
+        # a mere `x.conditional_items.push(..)` is the producer side
+        pushes = [n for n in walk(node) if n.get("k") == "MethodCall" and n.get("m") == "push" and peel(n["recv"]).get("k") == "Field" and peel(n["recv"]).get("name") == "conditional_items"]
+        reads = [n for n in walk(node) if n.get("k") == "Field" and n.get("name") == "conditional_items"]
+        consumer = len(reads) > len(pushes)
+        if consumer:
+            consumers.append(label)
+        for d, c in hirq.calls_in(node):
+            if not ("BuildNode" in d and "conditional" in last(d)):
+                continue
+            args = call_args(c)
+            if len(args) < 3:
+                continue
+            n_ctor += 1
+            kinds = set()
+            for o in body.origins(args[2]):
+                if o.get("k") == "Field" and o.get("name") == "conditional_parent":
+                    kinds.add("forwarded")
+                elif o.get("k") == "Param":
+                    kinds.add("own-index")
+                else:
+                    kinds.add(_classify(o))
+            r.examine((f["path"], label, loc(c)), True, {"context": label, "where": loc(c), "conditional_parent_from": sorted(kinds), "context_schedules_conditional_items": consumer})
+            if "forwarded" in kinds:
+                n_fwd += 1
+                if not consumer:
+                    r.finding(f["path"], "forwarded-outside-chain:" + label, loc(c),
+                              "%s hands its own conditional_parent on to a child, but it never schedules conditional_items: a conditional below it registers its branch with a parent that does not build it, and the zero placeholder in the jump table is never patched" % label)
+    r.analysed["contexts_scheduling_conditional_items"] = consumers
+    r.floor("constructions with a conditional parent", n_ctor, 2)
+    r.floor("handlers scheduling conditional_items", len(consumers), 1)
+    return r
+
+
 # --------------------------------------------------------------------------------------- T9
 
 
